@@ -81,7 +81,9 @@ def build(seq, names=NAMES, probe_kinds=None):
                     scopes[-1]["z%d" % k] = "obj"
                 probes.append((k, n, ist, kind))
 
-    for step, (ev, n) in enumerate(seq):
+    for step, evt in enumerate(seq):
+        ev, n = evt[0], evt[1]
+        v = evt[2] if len(evt) > 2 else 0  # spelling variant of the event
         cur = scopes[-1]
         here = cur.get(n)
         vis = lookup(n)
@@ -91,28 +93,37 @@ def build(seq, names=NAMES, probe_kinds=None):
         if ev == "td":
             if here not in (None, "typedef"):
                 raise Invalid("typedef redeclares an object in the same scope")
-            out.append("typedef int %s;" % n)
+            if n in st.setdefault("knr", set()) and len(scopes) == 1:
+                raise Quarantined("scope.knr_param_then_file_scope_typedef(F17)")
+            out.append(["typedef int {n};", "typedef int *{n};", "typedef struct {{ int a; }} {n};", "typedef int (*{n})(int);", "typedef int xt{f}, {n};"][v % 5].format(n=n, f=f))
             cur[n] = "typedef"
         elif ev in ("obj", "objp", "fn"):
             if here is not None and not (here == "obj" and not in_func and ev == "obj"):
                 raise Invalid("redeclaration in the same scope")
             if vis == "typedef" and len(scopes) > 1:
                 st["shadow"] = True
-            out.append({"obj": "int %s;" % n, "objp": "int *%s = 0;" % n, "fn": "int %s(void);" % n}[ev])
+            forms = {
+                "obj": ["int {n};", "int {n};", "int ({n});", "extern int {n};"] if not in_func else ["int {n};", "int {n}[2];", "int ({n});", "int xo{f}, {n};"],
+                "objp": ["int *{n} = 0;", "int {n} = 1;", "int *{n}[2] = {{ 0 }};", "char {n} = 'c';"],
+                "fn": ["int {n}(void);", "int *{n}(int);", "int ({n})(void);", "void {n}();"],
+            }[ev]
+            out.append(forms[v % len(forms)].format(n=n, f=f))
             cur[n] = "obj"
         elif ev == "enumr":
             if here is not None:
                 raise Invalid("redeclaration in the same scope")
             if vis == "typedef":
                 raise Quarantined("scope.enumerator_named_like_typedef(F15)")
-            out.append("enum { %s };" % n)
+            out.append(["enum {{ {n} }};", "enum E{f} {{ A{f}, {n} = 2 }};", "enum {{ {n} = 1, B{f} }};"][v % 3].format(n=n, f=f))
             cur[n] = "obj"
         elif ev == "tag":
-            out.append("struct %s { int m; };" % n)
+            out.append(["struct {n} {{ int m; }};", "struct {n};", "enum {n} {{ B{f} }};", "union {n} *u{f};"][v % 4].format(n=n, f=f))
         elif ev == "member":
-            out.append("struct S%d { int %s; };" % (f, n))
+            out.append(["struct S{f} {{ int {n}; }};", "struct S{f} {{ int *{n}, k; }};", "union W{f} {{ int {n} : 3; }};", "struct S{f} {{ struct {{ int {n}; }} in; }};"][v % 4].format(n=n, f=f))
         elif ev == "proto":
-            out.append("void g%d(int %s);" % (f, n))
+            if vis == "typedef" and v % 5 == 3:
+                raise Quarantined("decl.paren_typedef_name_parameter(F9a)")
+            out.append(["void g{f}(int {n});", "void g{f}(int {n}, int w);", "void (*h{f})(int {n});", "int g{f}(int (*{n})(void), ...);", "void g{f}(int, int {n}[]);"][v % 5].format(n=n, f=f))
         elif ev == "label":
             if not in_func:
                 raise Invalid("label outside a function")
@@ -131,7 +142,14 @@ def build(seq, names=NAMES, probe_kinds=None):
                 raise Invalid("nested function")
             if vis == "typedef":
                 st["shadow"] = True
-            out.append("void f%d(int %s) {" % (f, n))
+            if vis == "typedef" and v % 6 == 4:
+                raise Quarantined("decl.paren_typedef_name_parameter(F9a)")
+            if vis == "typedef" and v % 6 == 5:
+                raise Invalid("a typedef name cannot appear in a K&R identifier list")
+            forms = ["void f{f}(int {n}) {{", "void f{f}(int a{f}, int *{n}) {{", "int f{f}(int, int {n}) {{", "void f{f}(int {n}[], ...) {{", "void f{f}(char, long, int (*{n})(void)) {{", "int f{f}({n}) int {n}; {{"]
+            out.append(forms[v % len(forms)].format(n=n, f=f))
+            if v % len(forms) == 5:
+                st.setdefault("knr", set()).add(n)
             scopes.append({n: "obj"})
             st["in_func"] = True
             st["depth"] = 0
@@ -237,6 +255,8 @@ def enum_shard(arg):
         if stride > 1 and idx % stride != 0:
             continue
         seq = [EVENTS[first]] + [EVENTS[i] for i in rest]
+        # rotate the spelling variant of every event with the sequence number
+        seq = [(k, nm, (idx + 3 * j) % 60) for j, (k, nm) in enumerate(seq)]
         st.evaluations += 1
         try:
             src, nt = check_history(seq, ("seq", seq))
@@ -272,7 +292,7 @@ def random_shard(arg):
         tries = 0
         while len(seq) < target and tries < 200:
             tries += 1
-            ev = c.choice(events)
+            ev = c.choice(events) + (c.below(60),)
             try:
                 build(seq + [ev], names, [0])
             except Quarantined as q:
